@@ -833,6 +833,8 @@ lys_parse_load_from_clb_or_file(struct ly_ctx *ctx, const char *name, const char
     void (*module_data_free)(void *module_data, void *user_data) = NULL;
     struct lysp_load_module_check_data check_data = {0};
     struct ly_in *in;
+    uint32_t new_count;
+    LY_ERR r, ret = LY_SUCCESS;
 
     *mod = NULL;
 
@@ -850,10 +852,15 @@ search_clb:
                 LY_CHECK_RET(ly_in_new_memory(module_data, &in));
                 check_data.name = name;
                 check_data.revision = revision;
-                lys_parse_in(ctx, in, format, lysp_load_module_check, &check_data, new_mods, mod);
+                new_count = new_mods->count;
+                r = lys_parse_in(ctx, in, format, lysp_load_module_check, &check_data, new_mods, mod);
                 ly_in_free(in, 0);
                 if (module_data_free) {
                     module_data_free((void *)module_data, ctx->imp_clb_data);
+                }
+                if (r && (new_mods->count > new_count)) {
+                    /* failed after the module was added into the context */
+                    ret = r;
                 }
             }
         }
@@ -868,7 +875,12 @@ search_file:
         /* check we can use searchdirs and that we should */
         if (!(ctx->flags & LY_CTX_DISABLE_SEARCHDIRS) &&
                 (!mod_latest || !(mod_latest->latest_revision & LYS_MOD_LATEST_SEARCHDIRS))) {
-            lys_parse_localfile(ctx, name, revision, NULL, NULL, mod_latest ? 0 : 1, new_mods, (void **)mod);
+            new_count = new_mods->count;
+            r = lys_parse_localfile(ctx, name, revision, NULL, NULL, mod_latest ? 0 : 1, new_mods, (void **)mod);
+            if (r && (new_mods->count > new_count)) {
+                /* failed after the module was added into the context */
+                ret = r;
+            }
         }
         if (*mod && !revision) {
             /* we got the latest revision module in the searchdirs */
@@ -876,6 +888,12 @@ search_file:
         } else if (!*mod && (ctx->flags & LY_CTX_PREFER_SEARCHDIRS)) {
             goto search_clb;
         }
+    }
+
+    if (ret && (*mod || mod_latest)) {
+        /* another module would be used but the failed module is in the context and must be removed from it */
+        *mod = NULL;
+        return ret;
     }
 
     return LY_SUCCESS;
